@@ -28,6 +28,8 @@ pub struct Block {
     /// Some(raw pointer, raw size) when the block was taken from the system allocator
     /// because it did not fit the arena.
     big: Option<(usize, usize)>,
+    /// the block is a page-guarded mapping of its own
+    mapped: bool,
 }
 
 #[derive(Clone, Copy, Debug, Default, PartialEq, Eq)]
@@ -65,6 +67,7 @@ pub struct Shim {
     /// whole. An out-of-bounds or dangling *read* - which leaves no trace the shadow heap could
     /// audit - then kills the process, and crash-trace mode pins it on the case.
     pub pageguard: bool,
+    pub pageguard_fallbacks: u64,
 }
 
 mod sys {
@@ -108,6 +111,7 @@ impl Shim {
             trace_log: Vec::new(),
             system: std::env::var("LSVERIF_SHIM").is_ok_and(|v| v == "system"),
             pageguard: std::env::var("LSVERIF_SHIM").is_ok_and(|v| v == "pageguard"),
+            pageguard_fallbacks: 0,
         }
     }
 
@@ -116,7 +120,7 @@ impl Shim {
         let system = self.system;
         let pageguard = self.pageguard;
         for b in self.blocks.drain(..) {
-            if pageguard {
+            if pageguard && b.mapped {
                 if let Some((raw, raw_size)) = b.big {
                     unsafe { sys::munmap(raw as *mut u8, raw_size) };
                 }
@@ -169,7 +173,12 @@ impl Shim {
             let body = padded.div_ceil(sys::PAGE).max(1) * sys::PAGE;
             let total = body + sys::PAGE;
             let raw = unsafe { sys::mmap(std::ptr::null_mut(), total, sys::PROT_RW, sys::MAP_PRIVATE_ANON, -1, 0) };
-            assert!(raw as isize != -1 && !raw.is_null(), "shim: mmap failed");
+            if raw as isize == -1 || raw.is_null() {
+                // the OS refuses more mappings: this block is served from the ordinary arena (it
+                // merely loses the page guard); never a reason to disturb the code under test
+                self.pageguard_fallbacks += 1;
+                return self.carve_arena(layout);
+            }
             unsafe { sys::mprotect(raw.add(body), sys::PAGE, sys::PROT_NONE) };
             // the block ends (up to alignment padding) where the inaccessible page begins
             let user = unsafe { raw.add(body - padded) };
@@ -178,16 +187,20 @@ impl Shim {
                 std::ptr::write_bytes(user, FILL_FRESH, layout.size());
                 std::ptr::write_bytes(user.add(layout.size()), FILL_GUARD, padded - layout.size());
             }
-            self.blocks.push(Block { base: user as usize, size: layout.size(), align: layout.align(), live: true, big: Some((raw as usize, total)) });
+            self.blocks.push(Block { base: user as usize, size: layout.size(), align: layout.align(), live: true, big: Some((raw as usize, total)), mapped: true });
             return user;
         }
         if self.system {
             let p = unsafe { std::alloc::alloc(layout) };
             assert!(!p.is_null());
             unsafe { std::ptr::write_bytes(p, FILL_FRESH, layout.size()) };
-            self.blocks.push(Block { base: p as usize, size: layout.size(), align: layout.align(), live: true, big: None });
+            self.blocks.push(Block { base: p as usize, size: layout.size(), align: layout.align(), live: true, big: None, mapped: false });
             return p;
         }
+        self.carve_arena(layout)
+    }
+
+    fn carve_arena(&mut self, layout: Layout) -> *mut u8 {
         let align = layout.align().max(16);
         let need = layout.size() + 2 * GUARD + align;
         let (raw, big) = if self.bump + need <= ARENA {
@@ -208,7 +221,7 @@ impl Shim {
             std::ptr::write_bytes(user, FILL_FRESH, layout.size());
             std::ptr::write_bytes(user.add(layout.size()), FILL_GUARD, GUARD);
         }
-        self.blocks.push(Block { base: user as usize, size: layout.size(), align: layout.align(), live: true, big });
+        self.blocks.push(Block { base: user as usize, size: layout.size(), align: layout.align(), live: true, big, mapped: false });
         user
     }
 
@@ -254,7 +267,7 @@ impl Shim {
                     ));
                 }
                 self.blocks[i].live = false;
-                if self.pageguard {
+                if self.pageguard && self.blocks[i].mapped {
                     // quarantined and inaccessible: any later access through a stale pointer dies
                     if let Some((raw, total)) = self.blocks[i].big {
                         unsafe { sys::mprotect(raw as *mut u8, total, sys::PROT_NONE) };
